@@ -502,6 +502,9 @@ func (fr *frame) convert(x *ssa.Convert, g *Term) Value {
 				return v
 			}
 		}
+		if fb.Kind() == types.UnsafePointer {
+			return v
+		}
 		if ts, ok := to.(*types.Slice); ok && fb.Info()&types.IsString != 0 {
 			if basicWidth(ts.Elem().Underlying().(*types.Basic)) != 8 {
 				abort("string -> []rune unsupported")
